@@ -12,5 +12,16 @@ PROPS = {
     },
 }
 
+PROPS["C14"] = {
+    "level": "proof",
+    "technique": "Lean 4 proof (word-trick lane lemma, walkers over length-prefixed lists by induction) + model-vs-code correspondence",
+    "level_text": "Model lean/Mp4ff/Model/Nalu.lean transcribes both start-code scanners, both conversions and every AVC/HEVC walker; theorems in Props/C14.lean; tie = correspondence on well-formed streams (all helpers) and arbitrary strings (scanners) on every run.",
+    "level_note": "Trusted: Lean kernel, allowed axioms only, hand transcription validated by correspondence; amd64 little-endian 64-bit words.",
+    "trusted": ["Model/Nalu.lean hand transcription of avc/annexb.go, avc/nalus.go, avc/avc.go, hevc/hevc.go, hevc/annexb.go"],
+    "unmodelled": [],
+    "partial": [],
+    "assumptions": ["uint is 64 bit, little endian (amd64)"],
+}
+
 # reasons for properties that are not claimed (yet)
 NOT_CLAIMED = {}
